@@ -264,6 +264,26 @@ class RecheckCheck:
                            "shape": sh, "alpha": [1, 16385],
                            "first": g["first"], "seed": seed, "tier": tier,
                            "maxdmg": 1})
+        # scale and count: many files per directory, deep nesting, long names
+        # (explicit size vectors; every single damage of every file, for the
+        # larger shapes every single damage of every 7th file)
+        for sh, stride, nv in (("W40", 1, 2), ("N16", 1, 4), ("L250", 1, 4),
+                               ("W300", 7, 1)):
+            n = world.nfiles(sh)
+            P = 4
+            pat = list(range(0, 2 * P + 2))
+            vecs = e1.cyclic_vectors(n, pat, offsets=range(
+                nv if quick else min(2 * nv, len(pat))), stride=3)
+            for v in vecs:
+                nparts = {"W300": 12, "W40": 4}.get(sh, 1)
+                for part in range(nparts):
+                    gs.insert(0, {"scale": "S", "B": 2, "P": P, "shape": sh,
+                               "sizes_list": [v], "seed": seed, "tier": tier,
+                               "maxdmg": 1, "dmg_stride": stride,
+                               "dmg_part": [part, nparts],
+                               "fams": None if stride == 1 else
+                               ["own-v1", "own-v2", "own-hybrid",
+                                "ref-V1-bep47"]})
         # environment faults during a recheck of damaged content (E2, one
         # fault per execution): an answer that comes back must still be right
         for fam in ("own-v1", "own-v2", "own-hybrid", "ref-V1-bep47"):
@@ -611,7 +631,10 @@ class RecheckCheck:
             # a v2-only metafile cannot tell this shape from a single file
             fams = [f for f in fams if "v2" not in f.lower()]
         confirmed = {}
-        for sizes in e1.iter_sizes(g["shape"], g["alpha"], g["first"]):
+        if g.get("fams"):
+            fams = list(g["fams"])
+        for sizes in (g["sizes_list"] if "sizes_list" in g else
+                      e1.iter_sizes(g["shape"], g["alpha"], g["first"])):
             if sum(sizes) == 0:
                 continue
             w = {"scale": g["scale"], "B": g["B"], "P": g["P"],
@@ -619,6 +642,11 @@ class RecheckCheck:
             files = world.files_of(w, seed)
             singles = damages_for(files, g["P"],
                                   "R" if g.get("long") else g["scale"], None)
+            if g.get("dmg_stride", 1) > 1:
+                singles = [d for d in singles if d[1] % g["dmg_stride"] == 0]
+            if g.get("dmg_part"):
+                k, m = g["dmg_part"]
+                singles = [d for j, d in enumerate(singles) if j % m == k]
             dmg_sets = [()] + [(d,) for d in singles]
             n = len(sizes)
             budget = {1: 2 * g["P"] + 1, 2: 2 * g["P"] + 2,
